@@ -304,7 +304,14 @@ func (s *Store) Close() error {
 	vhook.At("store.close.run-stopped")
 	cerr := s.Err()
 
-	err := s.index.Close()
+	// Write the primary before the index is flushed and closed. The index
+	// must never reach disk before the primary records it refers to, the same
+	// order that commit uses.
+	_, err := s.index.Primary.Flush()
+	if err != nil {
+		cerr = err
+	}
+	err = s.index.Close()
 	if err != nil {
 		cerr = err
 	}
